@@ -1,7 +1,7 @@
 (* Correspondence obligations for C07: the model's Equals answers, hash keys, Hash.Get results and
    Unique results on the values the implementation ran (harness/cmd/c07). *)
 From Coq Require Import ZArith NArith Bool List.
-From PcoreV Require Import Model.Base Model.Keys.
+From PcoreV Require Import Model.Base Model.Keys Model.KeysIndex.
 Import ListNotations.
 
 (* the positions j with x.Equals(pool[j]) *)
@@ -46,3 +46,44 @@ Definition c07_get_mismatches (cs : list (value * value * option Z)) : list N :=
 Definition c07_unique_check (c : list value * list (list N)) : bool :=
   list_eqb str_eqb (map vkey (unique (fst c))) (snd c).
 Definition c07_unique_mismatches (cs : list (list value * list (list N))) : list N := failing c07_unique_check cs.
+
+(* ------------------------------------------------------------------------------------------ *)
+(* the Hash made from an array (WrapHashFromArray / Hash.new): the key index is pre-built.
+   A case: the elements of the array;
+           the observed entries of the new Hash as (ToKey key, ToKey value), in order (None: the constructor reported an error);
+           probes q with the observed Get through the pre-built index
+             (None: runtime fault, Some None: not found, Some (Some k): found a value whose ToKey is k) and IncludesKey;
+           other hashes o (built by WrapHash) with the observed h.Equals(o) and o.Equals(h) (None: runtime fault). *)
+Definition look_obs (l : look) : option (option (list N)) :=
+  match l with
+  | LFound v => Some (Some (vkey v))
+  | LMissing => Some None
+  | LFault => None
+  end.
+
+Definition from_array_case : Type :=
+  list value * option (list (list N * list N)) * list (value * option (option (list N)) * bool) * list (value * option bool * option bool).
+
+Definition c07_from_array_check (c : from_array_case) : bool :=
+  match c with
+  | (l, obs, probes, eqs) =>
+      forallb (fun x => wf_value x && keyable x) l &&
+      match hash_from_array l, obs with
+      | None, None => true
+      | Some h, Some oes =>
+          list_eqb (fun a b => str_eqb (fst a) (fst b) && str_eqb (snd a) (snd b))
+                   (map (fun e => (vkey (fst e), vkey (snd e))) (h_entries h)) oes
+          && wf_value (VHash (h_entries h))
+          && forallb (fun p => match p with (q, o, inc) =>
+                                 option_eqb (option_eqb str_eqb) (look_obs (hobj_get h q)) o
+                                 && Bool.eqb (hobj_includes_key h q) inc end) probes
+          && forallb (fun p => match p with
+                               | (VHash fs, o1, o2) =>
+                                   option_eqb Bool.eqb (hobj_equals h (wrap_hash fs)) o1
+                                   && option_eqb Bool.eqb (hobj_equals (wrap_hash fs) h) o2
+                               | _ => false
+                               end) eqs
+      | _, _ => false
+      end
+  end.
+Definition c07_from_array_mismatches (cs : list from_array_case) : list N := failing c07_from_array_check cs.
